@@ -20,12 +20,14 @@ RULE = (
     "resolves through get_struct/get_enum/get_type to exactly one declaration of the tagged kind "
     "that precedes the use.  Negative: the same schemas with one declaration removed (undeclared), "
     "moved after its first use (forward), replaced by a self reference, or moved into a module that "
-    "is imported after the use; must return Err (no exception, no tree) whose message chain names "
+    "is imported after the use, or with the unresolved reference inside a directly / transitively imported "
+    "module; must return Err (no exception, no tree) whose message chain names "
     "the missing type and the enclosing struct and whose rendered diagnostic cites the line of the "
     "offending reference.  distinct = (mutation kind, container path of the offending reference, "
     "kind of referenced declaration)."
 )
 ASSUMPTIONS = [
+    "type names are unique, except in the dedicated struct/enum name-collision scenario where only 'the resolved declaration has the tagged kind' is judged",
     "type names are unique (duplicates are the verifier's domain) and avoid builtin-type prefixes (K4)",
     "the offending reference is the first unresolved one in source order",
 ]
@@ -306,6 +308,87 @@ def one_schema(run, i, tmp):
         shutil.rmtree(d, ignore_errors=True)
 
 
+def module_cause(run, i, tmp):
+    """An unresolved reference INSIDE an imported module (direct or through a nested dotted import):
+    the error must still name the type and the enclosing struct, not only the import."""
+    r = run.rng("modcause", i)
+    decls = gen_refschema(r)
+    kind = r.choice(["undeclared", "forward", "self", "misspelled"])
+    m = mutate(r, decls, kind)
+    if m is None or first_unresolved(m) is None:
+        return
+    tname, sname, fieldname, path, refkind = first_unresolved(m)
+    d = os.path.join(tmp, "mc%d" % i)
+    nested = r.random() < 0.5
+    os.makedirs(os.path.join(d, "sub"))
+    body = S.print_schema(m)
+    files = {"sub/inner.fcp": body}
+    if nested:
+        files["outer.fcp"] = 'version: "3"\nmod sub.inner;\n'
+        files["main.fcp"] = 'version: "3"\nmod outer;\nstruct Tail%dQ { a @0: u8, }\n' % i
+    else:
+        files["main.fcp"] = 'version: "3"\nmod sub.inner;\nstruct Tail%dQ { a @0: u8, }\n' % i
+    for rel, txt in files.items():
+        open(os.path.join(d, rel), "w").write(txt)
+    case = {"files": files, "mutation": kind + " inside a module", "expected_missing_type": (tname, sname)}
+    try:
+        res, lg = PC.parse_file(os.path.join(d, "main.fcp"))
+    except BaseException as e:
+        run.violation("unresolved reference inside a module raised %s: %s" % (type(e).__name__, str(e)[:200]), case)
+        return
+    finally:
+        shutil.rmtree(d, ignore_errors=True)
+    run.count("module_cause_parsed")
+    if res.is_ok():
+        run.violation("a module with a %s reference ('%s' in struct %s) was accepted" % (kind, tname, sname), case)
+        return
+    msg = repr(res.err())
+    word = lambda w: re.search(r"(?<![A-Za-z0-9_])%s(?![A-Za-z0-9_])" % re.escape(w), msg) is not None
+    if not word(tname) or not word(sname):
+        run.violation("error for a %s reference inside an imported module does not name %s: %s" % (kind, "the type '%s'" % tname if not word(tname) else "the enclosing struct '%s'" % sname, msg[:300]), case)
+        return
+    run.count("module_cause_named")
+    run.case(sig="neg|%s|in-module|%s" % (kind, "nested" if nested else "direct"))
+
+
+def name_collision(run, i):
+    """The parser accepts a struct and an enum of the same name (the verifier rejects that later).
+    Whatever a reference is tagged as, resolving it must give a declaration of THAT kind."""
+    from fcp.specs.type import StructType, EnumType
+    from fcp.specs.struct import Struct
+    from fcp.specs.enum import Enum
+
+    r = run.rng("collision", i)
+    used = set()
+    n = long_ident(r, used)
+    holder = long_ident(r, used)
+    st = {"kind": "struct", "name": n, "fields": [{"name": "inner_" + n.lower(), "id": 0, "type": ("u", 8)}]}
+    en = {"kind": "enum", "name": n, "values": [("A" + n, 0), ("B" + n, 2)]}
+    first, second = (st, en) if r.random() < 0.5 else (en, st)
+    ref = wrap(r, ("struct", n))
+    decls = [first, second, {"kind": "struct", "name": holder, "fields": [{"name": "ref_" + holder.lower(), "id": 0, "type": ref}]}]
+    text = S.print_schema(decls)
+    case = {"text": text}
+    res, lg = PC.parse_string(text)
+    run.count("collision_schemas")
+    if res.is_err():
+        return  # rejecting the ambiguous schema is fine
+    fcp = res.unwrap()
+    t = [s for s in fcp.structs if s.name == holder][0].fields[0].type
+    while hasattr(t, "underlying_type"):
+        t = t.underlying_type
+    node = fcp.get_type(t)
+    if node.is_nothing():
+        run.violation("reference to '%s' (declared as struct and as enum) resolves to nothing" % n, case)
+        return
+    want = Struct if isinstance(t, StructType) else Enum
+    if not isinstance(node.unwrap(), want):
+        run.violation("reference to '%s' is tagged %s but get_type resolves it to a %s" % (n, type(t).__name__, type(node.unwrap()).__name__), case)
+        return
+    run.count("collision_references_consistent")
+    run.case(sig="pos|struct-enum-name-collision|%s-first|%s" % (first["kind"], "/".join(S.type_kinds(ref)[:-1])))
+
+
 def same_basename_modules(run, i, tmp):
     """main imports ca/types.fcp and li/frames.fcp; li/frames.fcp imports li/types.fcp (same file name,
     other directory).  Every reference of the accepted tree must still resolve."""
@@ -377,6 +460,10 @@ def run(run):
                 one_schema(run, i, tmp)
                 if i % 4 == 1:
                     same_basename_modules(run, i, tmp)
+                if i % 4 == 2:
+                    module_cause(run, i, tmp)
+                if i % 4 == 3:
+                    name_collision(run, i)
     finally:
         shutil.rmtree(tmp, ignore_errors=True)
         reach.stop()
@@ -384,7 +471,7 @@ def run(run):
 
 
 def conclude(run):
-    run.require("positive_trees_walked", "reference_leaves_walked", "negative_parsed", "negative_rejected_well", "module_positive", "module_negative", "same_basename_module_trees")
+    run.require("positive_trees_walked", "reference_leaves_walked", "negative_parsed", "negative_rejected_well", "module_positive", "module_negative", "same_basename_module_trees", "module_cause_named", "collision_references_consistent")
 
 
 def replay(run, case):
